@@ -141,13 +141,17 @@ func (s *streamWriter) init() {
 			}
 		default:
 			slog.Debug("remote using TLS for writing")
-			rawconn, err = tls.Dial("tcp", s.writeToAddr, s.tlsConfig)
+			// tls.Dial returns a *tls.Conn: assigning its nil result to rawconn directly
+			// would make rawconn a non-nil net.Conn that holds a nil pointer.
+			var tlsconn *tls.Conn
+			tlsconn, err = tls.Dial("tcp", s.writeToAddr, s.tlsConfig)
 			if err != nil {
 				d := time.Duration(delay * time.Duration(i*2))
 				slog.Error("tls.Dial", "err", err, "remote", s.writeToAddr, "retry", i, "max", maxRetries, "delay", d)
 				time.Sleep(d)
 				continue
 			}
+			rawconn = tlsconn
 		}
 		break
 	}
